@@ -568,6 +568,7 @@ func c18Corpus() []struct {
 
 func checkC18(c *Ctx) {
 	storageFaults(c, "C18")
+	c18RelativePath(c)
 	c18ConcurrentSet(c)
 	c18TempSpellings(c)
 	c18ColonAlias(c)
